@@ -49,6 +49,43 @@ func c09CredParams(c *kit.Ctx, a *c09Anchors) (emailIdx, passIdx int) {
 		}
 		return true
 	})
+	// a credential that is matched by the candidate query instead (c09_sqlmatch.go):
+	// the parameter bound against the text of the point of its type
+	if emailIdx < 0 || passIdx < 0 {
+		emailT, passT := dataConst(c, "PointTypeEmail"), dataConst(c, "PointTypePass")
+		for _, u := range c09CredSQLUses(newStoreModel(c), f) {
+			if u.kind != "eq" && u.kind != "inexact" {
+				continue
+			}
+			for k, p := range params {
+				if types.Object(p) != u.param {
+					continue
+				}
+				switch {
+				case u.ptype == emailT && emailIdx < 0:
+					emailIdx = k
+				case u.ptype == passT && passIdx < 0:
+					passIdx = k
+				}
+			}
+		}
+	}
+	// … or that is not compared exactly at all (R5 reports that): of two string
+	// parameters, the one that is not the other credential
+	var strs []int
+	for k, p := range params {
+		if c09IsString(p.Type()) {
+			strs = append(strs, k)
+		}
+	}
+	if len(strs) == 2 && emailIdx != passIdx {
+		switch {
+		case emailIdx < 0:
+			emailIdx = strs[0] + strs[1] - passIdx
+		case passIdx < 0:
+			passIdx = strs[0] + strs[1] - emailIdx
+		}
+	}
 	return
 }
 
